@@ -7,10 +7,22 @@ use std::panic::{catch_unwind, AssertUnwindSafe};
 
 use speedy::{Endianness, Readable};
 
+use std::net::{Ipv4Addr, Ipv6Addr, SocketAddrV4, SocketAddrV6};
+
 use crate::{
   dds::qos::{policy::*, QosPolicies},
-  messages::submessages::elements::{parameter::Parameter, parameter_list::ParameterList},
-  structure::{duration::Duration, parameter_id::ParameterId},
+  discovery::{
+    builtin_endpoint::{BuiltinEndpointQos, BuiltinEndpointSet},
+    spdp_participant_data::SpdpDiscoveredParticipantData,
+  },
+  messages::{
+    protocol_version::ProtocolVersion,
+    submessages::elements::{parameter::Parameter, parameter_list::ParameterList},
+    vendor_id::VendorId,
+  },
+  serialization::pl_cdr_adapters::{PlCdrDeserialize, PlCdrSerialize},
+  structure::{duration::Duration, guid::GUID, locator::Locator, parameter_id::ParameterId},
+  RepresentationIdentifier,
 };
 use super::util::{self, Args, CaseOut, Rng};
 
@@ -129,6 +141,142 @@ fn gen_qos(r: &mut Rng, mask: u32) -> QosPolicies {
     q.lifespan = Some(Lifespan { duration: gen_duration(r) });
   }
   q
+}
+
+fn gen_guid(r: &mut Rng) -> GUID {
+  let mut b = [0u8; 16];
+  match r.below(4) {
+    0 => {}
+    1 => b = [0xff; 16],
+    _ => {
+      for x in b.iter_mut() {
+        *x = r.next() as u8;
+      }
+    }
+  }
+  if r.chance(1, 2) {
+    b[15] = *r.pick(&[0xc1u8, 0xc2, 0xc7, 0x02, 0x07, 0x04, 0x03]);
+  }
+  GUID::from_bytes(b)
+}
+
+fn gen_port(r: &mut Rng) -> u16 {
+  if r.chance(1, 2) {
+    *r.pick(&[0u16, 1, 7400, 7410, 7411, 255, 256, 65535, 0x1234])
+  } else {
+    r.next() as u16
+  }
+}
+
+/// `wf` = false allows the values the wire format cannot carry (UdpV6 flowinfo/scope_id, Other with
+/// a kind that has its own variant)
+fn gen_locator(r: &mut Rng, wf: bool) -> Locator {
+  let mut addr = [0u8; 16];
+  for x in addr.iter_mut() {
+    *x = r.next() as u8;
+  }
+  if r.chance(1, 4) {
+    addr = [0; 16];
+  }
+  match r.below(10) {
+    0 => Locator::Invalid,
+    1 => Locator::Reserved,
+    2 | 3 | 4 | 5 => Locator::UdpV4(SocketAddrV4::new(
+      Ipv4Addr::new(addr[0], addr[1], addr[2], addr[3]),
+      gen_port(r),
+    )),
+    6 | 7 => {
+      let (fl, sc) = if wf { (0, 0) } else { (r.below(3) as u32, r.below(3) as u32 * 7) };
+      Locator::UdpV6(SocketAddrV6::new(Ipv6Addr::from(addr), gen_port(r), fl, sc))
+    }
+    _ => {
+      let kind = if wf {
+        *r.pick(&[3i32, 4, 8, 16, -2, i32::MAX, i32::MIN, 0x0100_0000, 0x0200_0000])
+      } else {
+        *r.pick(&[-1i32, 0, 1, 2])
+      };
+      let port = if r.chance(1, 2) { r.next() as u32 } else { *r.pick(&[0u32, 65535, 65536, u32::MAX]) };
+      Locator::Other { kind, port, address: addr }
+    }
+  }
+}
+
+fn gen_locators(r: &mut Rng, nonempty: bool, wf: bool) -> Vec<Locator> {
+  if !nonempty {
+    return vec![];
+  }
+  let n = match r.below(4) {
+    0 | 1 => 1,
+    2 => 2,
+    _ => r.range(3, 5),
+  };
+  (0..n).map(|_| gen_locator(r, wf)).collect()
+}
+
+/// strings: every length mod 4, ASCII and multi-byte UTF-8, embedded NUL
+fn gen_string(r: &mut Rng) -> String {
+  let n = match r.below(4) {
+    0 => r.below(9) as usize,
+    1 => r.below(5) as usize,
+    2 => r.range(9, 40) as usize,
+    _ => r.below(13) as usize,
+  };
+  let multi = r.chance(1, 3);
+  let mut s = String::new();
+  for _ in 0..n {
+    if multi && r.chance(1, 3) {
+      s.push(*r.pick(&['é', 'ß', '€', '✓', '𝄞', '\u{7ff}', '\u{800}', '\u{ffff}', '\u{10000}', '\u{10ffff}', '\0', '\u{7f}', '\u{80}']));
+    } else {
+      s.push((b'a' + (r.below(26) as u8)) as char);
+    }
+  }
+  s
+}
+
+const SPDP_FIELDS: usize = 9;
+
+/// mask bits: 0 expects_inline_qos, 1..4 the four locator lists non-empty, 5 lease, 6 liveliness
+/// count non-zero, 7 builtin endpoint qos, 8 entity name
+fn gen_spdp(r: &mut Rng, mask: u32, wf: bool) -> SpdpDiscoveredParticipantData {
+  let p = |i: usize| mask & (1 << i) != 0;
+  SpdpDiscoveredParticipantData {
+    updated_time: chrono::Utc::now(),
+    protocol_version: if r.chance(1, 2) {
+      ProtocolVersion::PROTOCOLVERSION_2_3
+    } else {
+      ProtocolVersion { major: r.next() as u8, minor: r.next() as u8 }
+    },
+    vendor_id: if r.chance(1, 2) {
+      VendorId::THIS_IMPLEMENTATION
+    } else {
+      VendorId { vendor_id: [r.next() as u8, r.next() as u8] }
+    },
+    expects_inline_qos: p(0),
+    participant_guid: gen_guid(r),
+    metatraffic_unicast_locators: gen_locators(r, p(1), wf),
+    metatraffic_multicast_locators: gen_locators(r, p(2), wf),
+    default_unicast_locators: gen_locators(r, p(3), wf),
+    default_multicast_locators: gen_locators(r, p(4), wf),
+    available_builtin_endpoints: BuiltinEndpointSet::from_u32(if r.chance(1, 2) {
+      0x1800_0c3f
+    } else {
+      r.next() as u32
+    }),
+    lease_duration: if p(5) { Some(gen_duration(r)) } else { None },
+    manual_liveliness_count: if p(6) { gen_i32(r) } else { 0 },
+    builtin_endpoint_qos: if p(7) {
+      let v: u32 = if r.chance(1, 2) { 1 } else { r.next() as u32 };
+      Some(BuiltinEndpointQos::read_from_buffer_with_ctx(Endianness::LittleEndian, &v.to_le_bytes()).unwrap())
+    } else {
+      None
+    },
+    entity_name: if p(8) { Some(gen_string(r)) } else { None },
+    // feature "security": not modelled, always absent
+    identity_token: None,
+    permissions_token: None,
+    property: None,
+    security_info: None,
+  }
 }
 
 /// every parameter id named in structure/parameter_id.rs: "the known set"
@@ -283,6 +431,67 @@ fn coq_qos(q: &QosPolicies) -> String {
   )
 }
 
+/// the only number in the derived Debug output of a one-field struct (no accessor exists)
+fn debug_u32<T: std::fmt::Debug>(x: &T) -> u32 {
+  let s = format!("{:?}", x);
+  let digits: String = s.chars().filter(|c| c.is_ascii_digit()).collect();
+  digits.parse().expect("one number in Debug output")
+}
+
+fn coq_str(s: &str) -> String {
+  util::bytes(s.as_bytes())
+}
+
+fn coq_guid(g: &GUID) -> String {
+  util::bytes(&g.to_bytes())
+}
+
+fn coq_locator(l: &Locator) -> String {
+  match l {
+    Locator::Invalid => "LInvalid".to_string(),
+    Locator::Reserved => "LReserved".to_string(),
+    Locator::UdpV4(sa) => {
+      let o = sa.ip().octets();
+      format!("(LUdpV4 {} {} {} {} {})", o[0], o[1], o[2], o[3], sa.port())
+    }
+    Locator::UdpV6(sa) => format!(
+      "(LUdpV6 {} {} {} {})",
+      util::bytes(&sa.ip().octets()),
+      sa.port(),
+      sa.flowinfo(),
+      sa.scope_id()
+    ),
+    Locator::Other { kind, port, address } => {
+      format!("(LOther {} {} {})", util::z(*kind as i128), port, util::bytes(address))
+    }
+  }
+}
+
+fn coq_locators(ls: &[Locator]) -> String {
+  util::list(ls.iter().map(coq_locator))
+}
+
+fn coq_spdp(v: &SpdpDiscoveredParticipantData) -> String {
+  format!(
+    "(Build_spdp ({}, {}) ({}, {}) {} {} {} {} {} {} {} {} {} {} {})",
+    v.protocol_version.major,
+    v.protocol_version.minor,
+    v.vendor_id.vendor_id[0],
+    v.vendor_id.vendor_id[1],
+    util::b(v.expects_inline_qos),
+    coq_guid(&v.participant_guid),
+    coq_locators(&v.metatraffic_unicast_locators),
+    coq_locators(&v.metatraffic_multicast_locators),
+    coq_locators(&v.default_unicast_locators),
+    coq_locators(&v.default_multicast_locators),
+    debug_u32(&v.available_builtin_endpoints),
+    util::opt(v.lease_duration.map(coq_duration)),
+    util::z(v.manual_liveliness_count as i128),
+    util::opt(v.builtin_endpoint_qos.map(|q| format!("{}", debug_u32(&q)))),
+    util::opt(v.entity_name.as_ref().map(|s| coq_str(s))),
+  )
+}
+
 fn coq_ins(ins: &[(usize, u16, Vec<u8>)]) -> String {
   util::list(
     ins
@@ -304,17 +513,20 @@ fn coq_outcome(x: &Option<String>) -> String {
 #[derive(Clone)]
 enum Val {
   Qos(QosPolicies),
+  Spdp(SpdpDiscoveredParticipantData),
 }
 
 #[derive(Clone, Copy, PartialEq, Eq, Debug)]
 enum Kind {
   Qos,
+  Spdp,
 }
 
 impl Kind {
   fn coq(self) -> &'static str {
     match self {
       Kind::Qos => "KQos",
+      Kind::Spdp => "KSpdp",
     }
   }
 }
@@ -323,11 +535,13 @@ impl Val {
   fn kind(&self) -> Kind {
     match self {
       Val::Qos(_) => Kind::Qos,
+      Val::Spdp(_) => Kind::Spdp,
     }
   }
   fn coq(&self) -> String {
     match self {
       Val::Qos(q) => format!("(VQos {})", coq_qos(q)),
+      Val::Spdp(v) => format!("(VSpdp {})", coq_spdp(v)),
     }
   }
   /// the real serialiser
@@ -338,7 +552,15 @@ impl Val {
         let pl = ParameterList { parameters };
         pl.serialize_to_bytes(e).ok().map(|b| b.to_vec())
       }
+      Val::Spdp(v) => v.to_pl_cdr_bytes(rep_id(e)).ok().map(|b| b.to_vec()),
     }
+  }
+}
+
+fn rep_id(e: Endianness) -> RepresentationIdentifier {
+  match e {
+    Endianness::LittleEndian => RepresentationIdentifier::PL_CDR_LE,
+    Endianness::BigEndian => RepresentationIdentifier::PL_CDR_BE,
   }
 }
 
@@ -350,6 +572,9 @@ fn decode(kind: Kind, e: Endianness, bytes: &[u8]) -> Option<Val> {
       let map = pl.to_map();
       QosPolicies::from_parameter_list(e, &map).ok().map(Val::Qos)
     }
+    Kind::Spdp => SpdpDiscoveredParticipantData::from_pl_cdr_bytes(bytes, rep_id(e))
+      .ok()
+      .map(Val::Spdp),
   }
 }
 
@@ -372,7 +597,7 @@ fn with_foreign(e: Endianness, bytes: &[u8], ins: &[(usize, u16, Vec<u8>)]) -> O
 // ------------------------------------------------------------------------------------------
 
 fn header() -> &'static str {
-  "From Coq Require Import List ZArith.\nFrom RD Require Import Common.Corr C15.Prim C15.PL C15.Qos C15.Model.\nImport ListNotations.\nOpen Scope Z_scope."
+  "From Coq Require Import List ZArith.\nFrom RD Require Import Common.Corr C15.Prim C15.PL C15.Qos C15.Disc C15.Model.\nImport ListNotations.\nOpen Scope Z_scope."
 }
 
 fn emit_val(
@@ -502,8 +727,23 @@ fn gen_endianness(r: &mut Rng) -> Endianness {
   }
 }
 
+/// parameters that only the security build reads and the model does not cover
+const UNMODELLED_PIDS: [u16; 5] = [0x1001, 0x1002, 0x0059, 0x1005, 0x1004];
+
+fn has_unmodelled_pid(e: Endianness, bytes: &[u8]) -> bool {
+  match ParameterList::read_from_buffer_with_ctx(e, bytes) {
+    Ok(pl) => pl.parameters.iter().any(|p| {
+      let id = p.parameter_id;
+      UNMODELLED_PIDS.iter().any(|u| pid_from_u16(*u) == id)
+    }),
+    Err(_) => false,
+  }
+}
+
+type Ins = Vec<(usize, u16, Vec<u8>)>;
+
 /// Fixed corpus: boundary cases from the case splits of the proofs.
-fn corpus() -> Vec<(Endianness, Val, Vec<(usize, u16, Vec<u8>)>)> {
+fn corpus() -> Vec<(Endianness, Val, Ins)> {
   let mut v = Vec::new();
   let le = Endianness::LittleEndian;
   let be = Endianness::BigEndian;
@@ -537,7 +777,63 @@ fn corpus() -> Vec<(Endianness, Val, Vec<(usize, u16, Vec<u8>)>)> {
   let mut r = Rng::new(15);
   v.push((le, Val::Qos(gen_qos(&mut r, 0xFFF)), vec![]));
   v.push((be, Val::Qos(gen_qos(&mut r, 0xFFF)), vec![(5, 0x9000, vec![1; 8])]));
+  // SPDP: nothing optional / everything, entity names of every length mod 4
+  for e in [le, be] {
+    v.push((e, Val::Spdp(gen_spdp(&mut r, 0, true)), vec![]));
+    v.push((e, Val::Spdp(gen_spdp(&mut r, 0x1ff, true)), vec![(2, 0x8000, vec![7; 5])]));
+    for name in ["", "a", "ab", "abc", "abcd", "é", "€", "𝄞", "a\0"] {
+      let mut p = gen_spdp(&mut r, 0, true);
+      p.entity_name = Some(name.to_string());
+      v.push((e, Val::Spdp(p), vec![]));
+    }
+    // locators the wire cannot carry faithfully (outside the theorem's hypothesis, model agrees)
+    let mut p = gen_spdp(&mut r, 0, true);
+    p.default_unicast_locators = vec![
+      Locator::Other { kind: 1, port: 0x1_0001, address: [9; 16] },
+      Locator::UdpV6(SocketAddrV6::new(Ipv6Addr::from([1; 16]), 7400, 5, 7)),
+      Locator::Other { kind: -1, port: 3, address: [1; 16] },
+    ];
+    v.push((e, Val::Spdp(p), vec![]));
+  }
   v
+}
+
+fn gen_value(r: &mut Rng, k: usize) -> (Val, Vec<String>) {
+  // which type: fixed rotation so that every type gets a stable share of the budget
+  match k % 2 {
+    0 => {
+      let j = (k / 2) as u32;
+      // present/absent stratification: an odd multiplier walks through all 4096 masks
+      let mask = (j.wrapping_mul(2654435761) >> 7) & 0xFFF;
+      let mask = if j % 16 == 0 { (j / 16) & 0xFFF } else { mask };
+      let mut tags = vec![format!("qos_policies_present:{}", mask.count_ones())];
+      for i in 0..QOS_FIELDS {
+        if mask & (1 << i) != 0 {
+          tags.push(format!("qos_present:{}", i));
+        }
+      }
+      (Val::Qos(gen_qos(r, mask)), tags)
+    }
+    _ => {
+      let j = (k / 2) as u32;
+      let mask = (j.wrapping_mul(40503) >> 3) & 0x1FF;
+      let wf = !r.chance(1, 10);
+      let mut tags = vec![format!("spdp_optional_present:{}", mask.count_ones())];
+      for i in 0..SPDP_FIELDS {
+        if mask & (1 << i) != 0 {
+          tags.push(format!("spdp_present:{}", i));
+        }
+      }
+      if !wf {
+        tags.push("unrepresentable_locators_allowed".to_string());
+      }
+      (Val::Spdp(gen_spdp(r, mask, wf)), tags)
+    }
+  }
+}
+
+fn n_params(e: Endianness, bytes: &[u8]) -> usize {
+  ParameterList::read_from_buffer_with_ctx(e, bytes).map(|p| p.parameters.len()).unwrap_or(0)
 }
 
 pub fn run(args: &Args) -> i32 {
@@ -554,28 +850,20 @@ pub fn run(args: &Args) -> i32 {
     if args.only.map_or(true, |o| o == idx) {
       let mut r = Rng::for_case(args.seed, idx);
       let e = gen_endianness(&mut r);
-      // present/absent stratification: an odd multiplier walks through all 4096 masks
-      let mask = ((k as u32).wrapping_mul(2654435761) >> 7) & 0xFFF;
-      let mask = if k % 16 == 0 { (k as u32 / 16) & 0xFFF } else { mask };
-      let q = gen_qos(&mut r, mask);
-      let v = Val::Qos(q);
-      let mut tags = vec![format!("qos_policies_present:{}", mask.count_ones())];
-      for i in 0..QOS_FIELDS {
-        if mask & (1 << i) != 0 {
-          tags.push(format!("qos_present:{}", i));
-        }
-      }
+      let (v, tags) = gen_value(&mut r, k);
       if r.chance(1, 5) {
         // hostile stream
         if let Some(bytes) = v.encode(e) {
           let (b, how) = mutate(&mut r, &bytes);
-          emit_raw(&mut out, idx, e, v.kind(), &b, how);
+          if has_unmodelled_pid(e, &b) {
+            emit_raw(&mut out, idx, e, v.kind(), &bytes, "skipped_security_pid");
+          } else {
+            emit_raw(&mut out, idx, e, v.kind(), &b, how);
+          }
         }
       } else {
-        let n_params = match &v {
-          Val::Qos(q) => q.to_parameter_list(e).map(|p| p.len()).unwrap_or(0),
-        };
-        let ins = if r.chance(3, 4) { gen_foreign(&mut r, n_params) } else { vec![] };
+        let np = v.encode(e).map(|b| n_params(e, &b)).unwrap_or(0);
+        let ins = if r.chance(3, 4) { gen_foreign(&mut r, np) } else { vec![] };
         emit_val(&mut out, idx, e, &v, &ins, &tags);
       }
     }
